@@ -1,7 +1,7 @@
 //! Thick line join.
 
 use crate::{
-    geometry::{Point, PointExt},
+    geometry::Point,
     primitives::{
         common::{LineSide, LinearEquation, StrokeOffset},
         line::intersection_params::{Intersection, IntersectionParams},
@@ -156,18 +156,22 @@ impl LineJoin {
             // Normal line: non-overlapping line end caps
             if !self_intersection {
                 // Distance from midpoint to miter outside end point.
-                let miter_length_squared = Line::new(
+                //
+                // The intersection of two nearly parallel edges can be far away from the midpoint,
+                // which requires 64 bit integers for the squared length.
+                let miter_delta = Line::new(
                     mid,
                     match outer_side {
                         LineSide::Left => l_intersection,
                         LineSide::Right => r_intersection,
                     },
                 )
-                .delta()
-                .length_squared() as u32;
+                .delta();
+                let miter_length_squared =
+                    i64::from(miter_delta.x).pow(2) + i64::from(miter_delta.y).pow(2);
 
                 // Miter length limit is double the line width (but squared to avoid sqrt() costs)
-                let miter_limit = (width * 2).pow(2);
+                let miter_limit = i64::from(width * 2).pow(2);
 
                 // Intersection is within limit at which it will be chopped off into a bevel, so
                 // return a miter.
